@@ -71,7 +71,26 @@ def library(w, contigs, method, n_target=None, defects=True, cells=None, dense=F
                         f['clip'] = w.randint(1, 6)
                 frags.append(f)
             mol += 1
-    return frags[:max(n_target, 0)] if n_target else []
+    frags = frags[:max(n_target, 0)] if n_target else []
+    # edge coordinates: a fragment whose leftmost base is base 0 of its contig, and one that ends on the last base
+    fo, ro = lib._OFF[kind]
+    for f in frags:
+        x = w.random()
+        if x < 0.04 and not f.get('clip'):
+            f['site'] = (0 - fo) if not f['rev'] else (f['L'] - ro)
+            if f['site'] < 0:
+                f['site'] = 0
+                f['rev'] = True
+                f['site'] = f['L'] - ro
+        elif x < 0.07 and not f.get('clip'):
+            clen = contigs[f['ctg']][1]
+            f['site'] = (clen - f['L'] - fo) if not f['rev'] else (clen - ro)
+    for f in frags:        # keep everything inside its contig
+        clen = contigs[f['ctg']][1]
+        xs = [v for v in lib.full_coords(f) if v is not None]
+        if min(xs) < 0 or max(xs) > clen:
+            f['site'] = max(f['L'] + 8, min(clen - f['L'] - 8, f['site']))
+    return frags
 
 
 def many_small_contigs(w, method, n=None):
